@@ -161,7 +161,9 @@ def run_tlc(
         res.ok = True
         return res
     if res.violation_kind is None:
-        raise TLCMachineryError(f"TLC failed (rc={rc}) without a recognisable verdict:\n{out[-4000:]}")
+        k = out.find("Error:")
+        head = out[k:k + 1500] if k >= 0 else ""
+        raise TLCMachineryError(f"TLC failed (rc={rc}) without a recognisable verdict:\n{head}\n...\n{out[-2500:]}")
     return res
 
 
